@@ -10,6 +10,7 @@
 #include <string.h>
 #include <time.h>
 #include <algorithm>
+#include <sys/mman.h>
 
 namespace gen {
 
@@ -17,7 +18,7 @@ namespace {
 
 double now_s() { struct timespec ts; clock_gettime(CLOCK_MONOTONIC, &ts); return ts.tv_sec + ts.tv_nsec * 1e-9; }
 
-struct Stream { uint32_t outlen = 32, keylen = 0; uint64_t keyseed = 0, msglen = 0, msgseed = 0; };
+struct Stream { uint32_t outlen = 32, keylen = 0; uint64_t keyseed = 0, msglen = 0, msgseed = 0; bool zero = false; }; // zero: the message is all zero bytes (lets one update exceed 4 GiB without memory)
 enum StepKind { S_UPDATE, S_FINAL, S_FINAL_SHORT, S_ONESHOT, S_BAD_ONESHOT, S_BAD_INIT, S_BAD_INIT_KEY, S_COMMIT, S_KINDS };
 static const char *SNAMES[S_KINDS] = {"update", "final", "final_short", "oneshot", "bad_oneshot", "bad_init", "bad_init_key", "commit"};
 struct Step { int kind = 0; int s = 0; uint64_t n = 0; uint32_t a = 0, b = 0; };
@@ -38,7 +39,7 @@ std::string to_json(const Plan11 &p) {
 	char b[200];
 	for (size_t i = 0; i < p.streams.size(); ++i) {
 		const Stream &t = p.streams[i];
-		snprintf(b, sizeof b, "%s{\"outlen\":%u,\"keylen\":%u,\"keyseed\":%llu,\"msglen\":%llu,\"msgseed\":%llu}", i ? "," : "", t.outlen, t.keylen, (unsigned long long)t.keyseed, (unsigned long long)t.msglen, (unsigned long long)t.msgseed);
+		snprintf(b, sizeof b, "%s{\"outlen\":%u,\"keylen\":%u,\"keyseed\":%llu,\"msglen\":%llu,\"msgseed\":%llu,\"zero\":%d}", i ? "," : "", t.outlen, t.keylen, (unsigned long long)t.keyseed, (unsigned long long)t.msglen, (unsigned long long)t.msgseed, t.zero ? 1 : 0);
 		s += b;
 	}
 	s += "],\"steps\":[";
@@ -52,7 +53,7 @@ std::string to_json(const Plan11 &p) {
 }
 bool from_json(const rt::JVal &j, Plan11 &p) {
 	p = Plan11(); p.seed = j.u64("seed");
-	if (auto a = j.get("streams")) for (auto &e : a->a) { Stream t; t.outlen = (uint32_t)e.num("outlen"); t.keylen = (uint32_t)e.num("keylen"); t.keyseed = e.u64("keyseed"); t.msglen = e.u64("msglen"); t.msgseed = e.u64("msgseed"); p.streams.push_back(t); }
+	if (auto a = j.get("streams")) for (auto &e : a->a) { Stream t; t.outlen = (uint32_t)e.num("outlen"); t.keylen = (uint32_t)e.num("keylen"); t.keyseed = e.u64("keyseed"); t.msglen = e.u64("msglen"); t.msgseed = e.u64("msgseed"); t.zero = e.num("zero") != 0; p.streams.push_back(t); }
 	if (auto a = j.get("steps")) for (auto &e : a->a) {
 		Step t; std::string k = e.str("k"); t.kind = -1;
 		for (int i = 0; i < S_KINDS; ++i) if (k == SNAMES[i]) t.kind = i;
@@ -110,13 +111,22 @@ Result run(const Plan11 &p) {
 			ensure_init(st.s, (int)si);
 			Live &l = L[st.s]; const Stream &t = p.streams[st.s];
 			uint64_t n = std::min<uint64_t>(st.n, t.msglen - std::min(t.msglen, l.fed));
-			if (n > ((uint64_t)64 << 20)) n = (uint64_t)64 << 20;
-			chunk.resize((size_t)n + 1);
-			msg_bytes(t.msgseed, l.fed, chunk.data(), (size_t)n);
-			int rc = blake2b_update(&l.st, chunk.data(), (size_t)n);
+			const uint8_t *data;
+			if (t.zero) { // all-zero message served from one untouched anonymous mapping (the kernel's zero page)
+				static uint8_t *zeros = nullptr; static const uint64_t ZLEN = ((uint64_t)5 << 30);
+				if (!zeros) { void *m = mmap(nullptr, ZLEN, PROT_READ, MAP_PRIVATE | MAP_ANONYMOUS | MAP_NORESERVE, -1, 0); if (m == MAP_FAILED) { R.invalid = true; return R; } zeros = (uint8_t *)m; }
+				if (n > ZLEN) n = ZLEN;
+				data = zeros;
+			} else {
+				if (n > ((uint64_t)64 << 20)) n = (uint64_t)64 << 20;
+				chunk.resize((size_t)n + 1);
+				msg_bytes(t.msgseed, l.fed, chunk.data(), (size_t)n);
+				data = chunk.data();
+			}
+			int rc = blake2b_update(&l.st, data, (size_t)n);
 			int want = (!l.valid || l.finalized) && n > 0 ? -1 : 0;
 			if (rc != want) fail("B2_UPDATE_STATUS", std::string("update returned ") + std::to_string(rc) + (l.finalized ? " after final" : !l.valid ? " on invalid state" : ""), "n=" + std::to_string(n), (int)si);
-			if (l.valid && !l.finalized) { l.ref.update(chunk.data(), (size_t)n); l.fed += n; }
+			if (l.valid && !l.finalized) { l.ref.update(data, (size_t)n); l.fed += n; }
 			if (l.finalized || !l.valid) ++R.misuse;
 			++R.updates; R.bytes += n; if (n == 0) ++R.zero_chunks;
 			if (last_stream >= 0 && last_stream != st.s) ++R.interleaved;
@@ -244,11 +254,18 @@ uint64_t pick_len(rt::Rng &r, bool thorough) {
 Plan11 generate(uint64_t run_seed, bool thorough, bool huge) {
 	Plan11 p; p.seed = run_seed;
 	rt::Rng r = rt::substream(run_seed, "c11");
-	if (huge) { // one stream longer than 4 GiB fed in 16 MiB chunks: 32-bit counter truncation / carry
-		Stream t; t.outlen = 64; t.msglen = ((uint64_t)4 << 30) + (1 << 20) + 13; t.msgseed = r.next();
-		p.streams.push_back(t);
-		for (uint64_t fed = 0; fed < t.msglen; fed += (16 << 20)) p.steps.push_back(Step{S_UPDATE, 0, (uint64_t)16 << 20, 0, 0});
+	if (huge) { // streams longer than 4 GiB: 32-bit truncation of a length or of the byte counter, counter carry
+		Stream t; t.outlen = 64; t.msglen = ((uint64_t)4 << 30) + (1 << 20) + 13; t.msgseed = r.next(); t.zero = true;
+		p.streams.push_back(t);      // (a) one update call larger than 4 GiB between two small ones
+		p.steps.push_back(Step{S_UPDATE, 0, 3, 0, 0});
+		p.steps.push_back(Step{S_UPDATE, 0, ((uint64_t)4 << 30) + 5, 0, 0});
+		p.steps.push_back(Step{S_UPDATE, 0, t.msglen, 0, 0});
 		p.steps.push_back(Step{S_FINAL, 0, 0, 0, 0});
+		Stream u; u.outlen = 32; u.keylen = 17; u.keyseed = r.next(); u.msglen = ((uint64_t)4 << 30) + 129; u.zero = true;
+		p.streams.push_back(u);      // (b) keyed, crossing 4 GiB in 1 GiB chunks that are not block aligned
+		p.steps.push_back(Step{S_UPDATE, 1, 77, 0, 0});
+		for (int i = 0; i < 5; ++i) p.steps.push_back(Step{S_UPDATE, 1, ((uint64_t)1 << 30) + 1, 0, 0});
+		p.steps.push_back(Step{S_FINAL, 1, 0, 0, 0});
 		return p;
 	}
 	int ns = (int)r.range(1, 4);
@@ -326,7 +343,7 @@ int c11_worker(uint64_t seed, uint64_t from, uint64_t to, uint64_t step, double 
 	for (uint64_t idx = from; idx < to; idx += step) {
 		if (budget_s > 0 && now_s() - t0 > budget_s) break;
 		uint64_t run_seed = rt::mix64(rt::mix_str(seed, "C11"), idx);
-		bool huge = thorough && idx == 0;
+		bool huge = idx == 0; // one >4 GiB plan per check run (about 25 s on one worker)
 		Plan11 p = generate(run_seed, thorough, huge);
 		Result R = run(p);
 		print_result(idx, p, R, !R.v.empty() || done < samples);
